@@ -750,6 +750,114 @@ theorem cons_ignores_invalid (s : PartsState) (h r : Int) (p : Part)
   · exact absurd hv h1
   · exact absurd h1 hh
 
+
+/-! ## The gate in front of the header: only a complete block id becomes a part set -/
+
+/-- A proposal that passes `Proposal.ValidateBasic` carries a part-set header with a positive part
+count and a root of hash length (so `defaultSetProposal` never builds a part set from a header
+without a root). -/
+theorem proposal_header_complete (p : ProposalHdr) (h : proposalValidateBasic p = .ok ()) :
+    p.root.length = hashSize ∧ 0 < p.total ∧ p.blockHash.length = hashSize := by
+  unfold proposalValidateBasic at h
+  split at h; · cases h
+  split at h; · cases h
+  split at h; · cases h
+  split at h; · cases h
+  split at h; · cases h
+  split at h; · cases h
+  rename_i hc
+  simp [isCompleteID] at hc
+  exact ⟨hc.2, Nat.pos_of_ne_zero hc.1.2, hc.1.1⟩
+
+/-- A proof whose (index, total, number of aunts) describe no path is refused against EVERY root,
+the empty one included (before the `fix:` commit Go's `bytes.Equal(nil, [])` made it verify against
+an empty root for any item). -/
+theorem shapeless_proof_never_verifies (r leaf : Bytes) (p : Proof)
+    (hshape : computeRoot H p = none) : ∀ u, verify H r leaf p ≠ .ok u := by
+  intro u
+  unfold verify
+  split; · simp
+  split; · simp
+  split; · simp
+  rw [hshape]
+  simp
+
+/-- Hence no part set — whatever its header, a rootless one included — accepts a part carried by
+such a proof. -/
+theorem header_rejects_shapeless (ps : PartSet) (p : Part)
+    (hshape : computeRoot H p.proof = none) : (addPart H ps p).2 ≠ .added := by
+  unfold addPart
+  split; · simp
+  split; · simp
+  split; · simp
+  split
+  · simp
+  · rename_i u hu; exact absurd hu (shapeless_proof_never_verifies H ps.hash p.bytes p.proof hshape u)
+
+/-- A header WITHOUT a root (which commits to no data) accepts nothing at all: a verifying proof
+computes a hash, and a hash is never empty. -/
+theorem rootless_header_accepts_nothing (L : Nat) (hL : 0 < L) (hlen : ∀ x, (H x).length = L)
+    (ps : PartSet) (hroot : ps.hash = []) (p : Part) : (addPart H ps p).2 ≠ .added := by
+  unfold addPart
+  split; · simp
+  split; · simp
+  split; · simp
+  split
+  · simp
+  · rename_i u hu
+    exfalso
+    unfold verify at hu
+    split at hu; · cases hu
+    split at hu; · cases hu
+    split at hu; · cases hu
+    rename_i hleaf
+    have hleaf' : p.proof.leafHash = leafHash H p.bytes := by simpa using hleaf
+    split at hu
+    · cases hu
+    · rename_i h hc
+      split at hu
+      · rename_i heq
+        -- the computed root is the leaf hash or an inner hash: length L > 0, never the empty root
+        have hlenh : h.length = L := by
+          unfold computeRoot at hc
+          split at hc; · cases hc
+          revert hc
+          generalize p.proof.total.toNat = n
+          generalize p.proof.index.toNat = i
+          intro hc
+          cases n with
+          | zero => simp [fromAunts] at hc
+          | succ n =>
+            unfold fromAunts at hc
+            split at hc; · cases hc
+            split at hc
+            · split at hc
+              · simp only [Option.some.injEq] at hc; rw [← hc, hleaf']; simp [leafHash, hlen]
+              · cases hc
+            · split at hc
+              · cases hc
+              · simp only [] at hc
+                split at hc
+                · simp only [Option.map_eq_some_iff] at hc
+                  obtain ⟨l, _, hl⟩ := hc
+                  rw [← hl]; simp [innerHash, hlen]
+                · simp only [Option.map_eq_some_iff] at hc
+                  obtain ⟨l, _, hl⟩ := hc
+                  rw [← hl]; simp [innerHash, hlen]
+        rw [heq, hroot] at hlenh
+        simp at hlenh
+        omega
+      · cases hu
+
+example : proposalValidateBasic {
+    isProposalType := true, height := 3, round := 0, polRound := -1,
+    blockHash := List.replicate 32 1, total := 1, root := List.replicate 32 2, sigLen := 64 } = .ok () := by
+  simp [proposalValidateBasic, validateHash, isCompleteID, hashSize, maxSignatureSize]
+example : proposalValidateBasic {
+    isProposalType := true, height := 3, round := 0, polRound := -1,
+    blockHash := List.replicate 32 1, total := 1, root := [], sigLen := 64 } = .error .incomplete := by
+  simp [proposalValidateBasic, validateHash, isCompleteID, hashSize, maxSignatureSize]
+
 /-! Non-vacuity of the reader theorems: a set with an empty part in the middle, read 2 bytes at a time. -/
 example : rdSeq [2, 2, 2] [1] [[], [2, 3], []] = [([1, 2], false), ([3], true), ([], true)] := by decide
 
